@@ -1,6 +1,7 @@
 SPECIFICATION Spec
 CONSTANTS
  Alphabet = {97}
+ MinLen = 0
  MaxLen = 1
  CFs = {0, 1}
  Vers = {1, 2, 1000000}
